@@ -221,6 +221,152 @@ pub fn run_c13(tier: &str) -> i32 {
         v(&mut rep, "rank-range", "all()".into(), json!({}), json!("ace..deuce / s h d c"), res(&ga));
     }
     rep.sub("ranges", "RankRange::new/inclusive for all 91 endpoint pairs a<=b, SuitRange for all 10, and all(): exactly the codes in [a,b) / [a,b], ascending", nr, 91 + 10 + 2, true, json!({}));
+    // 5b. the range iterators under every consumption protocol
+    {
+        let mut np = 0u64;
+        for a in 0..13usize {
+            for b in a..13usize {
+                let (ra, rb) = (RANKS[a], RANKS[b]);
+                for incl in [false, true] {
+                    np += 1;
+                    let r = catch(move || vlib::iterproto::check(|| if incl { RankRange::inclusive(ra, rb).into_iter() } else { RankRange::new(ra, rb).into_iter() }, 4));
+                    if !matches!(r, Ok(None)) {
+                        v(&mut rep, "range-protocol", format!("RankRange::{}({},{}) consumed as an iterator", if incl { "inclusive" } else { "new" }, RANK_CHARS[a], RANK_CHARS[b]), json!({"a": a, "b": b, "inclusive": incl}), json!("every way of consuming the iterator agrees with plain forward iteration"), res(&r));
+                    }
+                }
+            }
+        }
+        for a in 0..4usize {
+            for b in a..4usize {
+                let (sa, sb) = (SUITS[a], SUITS[b]);
+                for incl in [false, true] {
+                    np += 1;
+                    let r = catch(move || vlib::iterproto::check(|| if incl { SuitRange::inclusive(sa, sb).into_iter() } else { SuitRange::new(sa, sb).into_iter() }, 4));
+                    if !matches!(r, Ok(None)) {
+                        v(&mut rep, "range-protocol", format!("SuitRange::{}({},{}) consumed as an iterator", if incl { "inclusive" } else { "new" }, SUIT_CHARS[a], SUIT_CHARS[b]), json!({"a": a, "b": b, "inclusive": incl}), json!("every way of consuming the iterator agrees with plain forward iteration"), res(&r));
+                    }
+                }
+            }
+        }
+        rep.sub("range-protocol", "the iterators of RankRange / SuitRange new and inclusive for all endpoint pairs: all front/back pull sequences of length <= 4 then drained either way, rev(), nth/nth_back for every k, count(), last(), len()/size_hint() before every pull agree with plain forward iteration", np, np, true, json!({}));
+    }
+
+    // 6. every route to the order: operators, Ord::cmp, partial_cmp, min/max/clamp, sort, BTreeSet, binary_search
+    {
+        fn routes<T: Ord + Copy + std::fmt::Debug>(items: &[T]) -> Vec<String> {
+            let n = items.len();
+            let mut problems = vec![];
+            for i in 0..n {
+                for j in 0..n {
+                    let (a, b) = (items[i], items[j]);
+                    let want = i.cmp(&j);
+                    if a.cmp(&b) != want || a.partial_cmp(&b) != Some(want) || (a < b) != (i < j) || (a <= b) != (i <= j) || (a > b) != (i > j) || (a >= b) != (i >= j) || (a == b) != (i == j) || (a != b) != (i != j) {
+                        problems.push(format!("{:?} vs {:?}: cmp {:?}, partial_cmp {:?}, < {}, == {}; positions compare {:?}", a, b, a.cmp(&b), a.partial_cmp(&b), a < b, a == b, want));
+                    }
+                    if a.max(b) != items[i.max(j)] || a.min(b) != items[i.min(j)] || std::cmp::max(a, b) != items[i.max(j)] || std::cmp::min(a, b) != items[i.min(j)] {
+                        problems.push(format!("max/min of {:?} and {:?}", a, b));
+                    }
+                    if i <= j {
+                        for k in 0..n {
+                            if items[k].clamp(a, b) != items[k.clamp(i, j)] {
+                                problems.push(format!("{:?}.clamp({:?}, {:?})", items[k], a, b));
+                            }
+                        }
+                    }
+                }
+            }
+            // sorting a scrambled copy by every route gives position order
+            let scrambled: Vec<T> = (0..n).map(|i| items[(i * 7 + 3) % n]).collect();
+            let mut s1 = scrambled.clone();
+            s1.sort();
+            let mut s2 = scrambled.clone();
+            s2.sort_unstable();
+            let mut s3 = scrambled.clone();
+            s3.sort_by(|a, b| a.cmp(b));
+            let mut s4 = scrambled.clone();
+            s4.sort_by(|a, b| a.partial_cmp(b).unwrap());
+            let mut s5 = scrambled.clone();
+            s5.sort_by_key(|a| *a);
+            for (name, sorted) in [("sort", &s1), ("sort_unstable", &s2), ("sort_by(cmp)", &s3), ("sort_by(partial_cmp)", &s4), ("sort_by_key", &s5)] {
+                if sorted[..] != items[..] {
+                    problems.push(format!("{}() of a scrambled list is not position order", name));
+                }
+            }
+            let mut set = std::collections::BTreeSet::new();
+            for x in &scrambled {
+                set.insert(*x);
+            }
+            if set.len() != n || set.iter().cloned().collect::<Vec<T>>()[..] != items[..] {
+                problems.push(format!("a BTreeSet filled one by one holds {} of the {} values, or not in position order", set.len(), n));
+            }
+            let set2: std::collections::BTreeSet<T> = scrambled.iter().cloned().collect();
+            if set2.len() != n {
+                problems.push(format!("a collected BTreeSet holds {} of the {} values", set2.len(), n));
+            }
+            let mut map = std::collections::BTreeMap::new();
+            for (i, x) in items.iter().enumerate() {
+                map.insert(*x, i);
+            }
+            for (i, x) in items.iter().enumerate() {
+                if items.binary_search(x) != Ok(i) || map.get(x) != Some(&i) {
+                    problems.push(format!("binary_search / BTreeMap lookup of {:?}", x));
+                }
+            }
+            if items.iter().max() != items.last() || items.iter().min() != items.first() {
+                problems.push("Iterator::max / min".into());
+            }
+            if !items.windows(2).all(|w| w[0] < w[1]) {
+                problems.push("the position order is not strictly increasing".into());
+            }
+            problems
+        }
+        let cards: Vec<Card> = all.to_vec();
+        let mut n6 = 0u64;
+        for (what, problems) in [("cards", catch(move || routes(&cards))), ("ranks", catch(|| routes(&RANKS))), ("suits", catch(|| routes(&SUITS)))] {
+            n6 += 1;
+            match problems {
+                Ok(p) if p.is_empty() => {}
+                Ok(p) => v(&mut rep, "order-routes", format!("order of {}", what), json!({"what": what}), json!("every route to the order agrees with the positions (ace..deuce, s h d c; cards by rank then suit)"), json!(p.iter().take(5).collect::<Vec<_>>())),
+                Err(e) => v(&mut rep, "order-routes", format!("order of {}", what), json!({"what": what}), json!("no panic"), json!({"panic": e})),
+            }
+        }
+        rep.sub("order-routes", "cards, ranks and suits: all ordered pairs through ==, !=, <, <=, >, >=, Ord::cmp, partial_cmp, max/min (method and function), all clamp triples, five sort routes on a scrambled list, BTreeSet filled one by one and collected, BTreeMap and binary_search lookups, Iterator::max/min: all agree with the positions", n6, n6, true, json!({}));
+    }
+
+    // 7. the text under format specifications: padding may be honoured or ignored, but the card's own two characters stay together
+    {
+        fn specs(x: &dyn std::fmt::Display) -> Vec<(&'static str, String)> {
+            vec![("{}", format!("{}", x)), ("{:1}", format!("{:1}", x)), ("{:2}", format!("{:2}", x)), ("{:4}", format!("{:4}", x)), ("{:<5}", format!("{:<5}", x)), ("{:>5}", format!("{:>5}", x)), ("{:^6}", format!("{:^6}", x)), ("{:-<7}", format!("{:-<7}", x)), ("{:*>3}", format!("{:*>3}", x)), ("{:#}", format!("{:#}", x)), ("{:+}", format!("{:+}", x)), ("{:9.9}", format!("{:9.9}", x))]
+        }
+        let mut n7 = 0u64;
+        let mut check = |rep: &mut Report, what: String, text: String, got: Result<Vec<(&'static str, String)>, String>| {
+            n7 += 1;
+            match got {
+                Err(e) => v(rep, "format-specs", what, json!({}), json!("no panic"), json!({"panic": e})),
+                Ok(list) => {
+                    for (spec, out) in list {
+                        let core = out.trim_matches(|c: char| c == ' ' || c == '-' || c == '*');
+                        if core != text {
+                            v(rep, "format-specs", format!("{} formatted with {}", what, spec), json!({"spec": spec}), json!(format!("{:?}, possibly padded", text)), json!(out));
+                        }
+                    }
+                }
+            }
+        };
+        for i in 0..52u8 {
+            let c = all[i as usize];
+            check(&mut rep, format!("card={}", card_text(i)), card_text(i), catch(move || specs(&c)));
+        }
+        for i in 0..13usize {
+            let r = RANKS[i];
+            check(&mut rep, format!("rank={}", RANK_CHARS[i]), RANK_CHARS[i].to_string(), catch(move || specs(&r)));
+        }
+        for i in 0..4usize {
+            let su = SUITS[i];
+            check(&mut rep, format!("suit={}", SUIT_CHARS[i]), SUIT_CHARS[i].to_string(), catch(move || specs(&su)));
+        }
+        rep.sub("format-specs", "the Display text of all 52 cards, 13 ranks and 4 suits under twelve format specifications (widths, alignments, fills, flags, a generous precision): padding may be honoured or ignored, but with the fill characters trimmed the text is the card's / rank's / suit's own", n7, n7, true, json!({}));
+    }
     rep.bound("reversed range endpoints (a > b) are not 'a contiguous run between its endpoints' and are not judged here; the user-reachable route to them is C09's");
     rep.sample(json!({"range": "RankRange::inclusive(K,T)", "yields": format!("{:?}", RankRange::inclusive(Rank::King, Rank::Ten).into_iter().collect::<Vec<_>>())}));
     rep.finish()
@@ -253,8 +399,9 @@ pub fn run_c14(tier: &str) -> i32 {
             let r = catch(move || {
                 let p = CardPair::new(ca, cb);
                 let q = CardPair::new(cb, ca);
-                let first = if ca < cb { ca } else { cb };
-                let second = if ca < cb { cb } else { ca };
+                // "the card that orders first": by position in the deck order (rank, then suit), not by asking the library
+                let first = if a < b { ca } else { cb };
+                let second = if a < b { cb } else { ca };
                 let mut problems: Vec<String> = vec![];
                 if p != q {
                     problems.push("new(a,b) != new(b,a)".into());
@@ -410,6 +557,52 @@ pub fn run_c14(tier: &str) -> i32 {
             v(&mut rep, "handed-out-pairs", what.clone(), json!({"source": what}), json!("canonical pairs, each combo once"), json!(p));
         }
         rep.sub("handed-out-pairs", "every CardPair the library hands out: RankPair::into_iter for all 13 + 156 + 156 enum values (either rank order), the expansion of every single rank-pair token in either spelling, and the keys of a range holding one rank pair spelled both ways: first element orders first, equal to new(a,b), no combo twice", n, 13 + 312, true, json!({}));
+    }
+    // the rank-pair expansion is an iterator: every way of consuming it hands out the same pairs
+    {
+        use espada::hand_range::RankPair;
+        let mut rps: Vec<(String, RankPair)> = vec![];
+        for h in 0..13usize {
+            rps.push((format!("Pocket({})", RANK_CHARS[h]), RankPair::Pocket(RANKS[h])));
+            for k in 0..13usize {
+                if h != k {
+                    rps.push((format!("Suited({},{})", RANK_CHARS[h], RANK_CHARS[k]), RankPair::Suited(RANKS[h], RANKS[k])));
+                    rps.push((format!("Ofsuit({},{})", RANK_CHARS[h], RANK_CHARS[k]), RankPair::Ofsuit(RANKS[h], RANKS[k])));
+                }
+            }
+        }
+        let mut np = 0u64;
+        for (name, rp) in &rps {
+            np += 1;
+            let rp = *rp;
+            let r = catch(move || vlib::iterproto::check(|| rp.into_iter(), 4));
+            if !matches!(r, Ok(None)) {
+                v(&mut rep, "expansion-protocol", format!("RankPair::{} consumed as an iterator", name), json!({"rank_pair": name}), json!("every way of consuming the expansion agrees with plain forward iteration"), res(&r));
+            }
+        }
+        rep.sub("expansion-protocol", "RankPair::into_iter for all 13 + 156 + 156 enum values (either rank order): all front/back pull sequences of length <= 4 then drained either way, rev(), nth/nth_back, count(), last(), len()/size_hint() agree with plain forward iteration", np, np, true, json!({}));
+    }
+    // the pair's text under format specifications: padding honoured or ignored, the four characters stay together
+    {
+        let mut nf = 0u64;
+        for cb in all_combos() {
+            nf += 1;
+            let cp = cb.card_pair();
+            let text = cb.text();
+            let got = catch(move || vec![("{}", format!("{}", cp)), ("{:4}", format!("{:4}", cp)), ("{:8}", format!("{:8}", cp)), ("{:<6}", format!("{:<6}", cp)), ("{:>6}", format!("{:>6}", cp)), ("{:^7}", format!("{:^7}", cp)), ("{:*>9}", format!("{:*>9}", cp)), ("{:#}", format!("{:#}", cp)), ("{:9.9}", format!("{:9.9}", cp))]);
+            match got {
+                Err(e) => v(&mut rep, "format-specs", format!("pair={}", text), json!({}), json!("no panic"), json!({"panic": e})),
+                Ok(list) => {
+                    for (spec, out) in list {
+                        let core = out.trim_matches(|c: char| c == ' ' || c == '*');
+                        if core != text || core.parse::<CardPair>().ok() != Some(cp) {
+                            v(&mut rep, "format-specs", format!("pair={} formatted with {}", text, spec), json!({"spec": spec}), json!(format!("{:?}, possibly padded, parsing back to the pair", text)), json!(out));
+                        }
+                    }
+                }
+            }
+        }
+        rep.sub("format-specs", "the Display text of all 1,326 pairs under nine format specifications: with the fill trimmed it is the pair's own four characters and parses back to the pair", nf, nf, true, json!({}));
     }
     rep.sample(json!({"new(Ks,As)": CardPair::new(all[4], all[0]).to_string(), "new(As,Ks)": CardPair::new(all[0], all[4]).to_string()}));
     rep.finish()
